@@ -42,20 +42,24 @@ MCInit ==
 
 Log(op, api, m) == hist' = Append(hist, <<op, api, m>>)
 
+Go == Len(hist) <= MaxOps /\ Alive
+Styles(A(_, _), name) == Go /\ \E api \in 0..4, m \in {0, 1} : A(api, m) /\ Log(name, api, m)
+
+(* one sub-action per action of Cast.tla, so that TLC's coverage names each of them *)
+DoIntoArray == Styles(IntoArray, "into_array")
+DoFromArray == Styles(FromArray, "from_array")
+DoIntoComponent == Styles(IntoComponent, "into_component")
+DoTryFromComponent == Styles(TryFromComponent, "try_from_component")
+DoFromComponent == Styles(FromComponent, "from_component")
+DoIntoUint == Styles(IntoUint, "into_uint")
+DoFromUint == Styles(FromUint, "from_uint")
+DoMapInPlace == Go /\ MapInPlace /\ Log("map", 0, 0)
+DoRefAsSlice == Go /\ RefAsSlice /\ Log("ref_as_slice", 1, 0)
+DoTrySliceAsRef == Go /\ TrySliceAsRef /\ Log("try_slice_as_ref", 1, 0)
+
 MCNext ==
-  /\ Len(hist) <= MaxOps
-  /\ Alive
-  /\ \/ \E api \in 0..4, m \in {0, 1} :
-          \/ IntoArray(api, m) /\ Log("into_array", api, m)
-          \/ FromArray(api, m) /\ Log("from_array", api, m)
-          \/ IntoComponent(api, m) /\ Log("into_component", api, m)
-          \/ TryFromComponent(api, m) /\ Log("try_from_component", api, m)
-          \/ FromComponent(api, m) /\ Log("from_component", api, m)
-          \/ IntoUint(api, m) /\ Log("into_uint", api, m)
-          \/ FromUint(api, m) /\ Log("from_uint", api, m)
-     \/ MapInPlace /\ Log("map", 0, 0)
-     \/ RefAsSlice /\ Log("ref_as_slice", 1, 0)
-     \/ TrySliceAsRef /\ Log("try_slice_as_ref", 1, 0)
+  \/ DoIntoArray \/ DoFromArray \/ DoIntoComponent \/ DoTryFromComponent \/ DoFromComponent
+  \/ DoIntoUint \/ DoFromUint \/ DoMapInPlace \/ DoRefAsSlice \/ DoTrySliceAsRef
 
 MCSpec == MCInit /\ [][MCNext]_<<vars, hist>>
 
